@@ -117,6 +117,26 @@ def _dataframe(ctx, fn, g, table, two):
     ctx.ob("R-ALIGN", "Function.%s::stored under the condition name" % fn.name, oks,
            "the table is (re)assigned under the condition name at every generation" if oks else
            "the table is not stored by `self.tables_of_constraints[<condition name>] = <DataFrame>` (e.g. setdefault keeps the table of an earlier solve)", loc(fn, stores[0] if stores else fn))
+    if oks:
+        # the only admissible guard of the store is "the table is not empty" (no sample, no table)
+        badg = []
+        for t, br, _ in flow.effective_guards(stores[0], stop=fn):
+            txt = src(t).replace(" ", "")
+            nonempty = None
+            if isinstance(t, ast.Compare) and len(t.ops) == 1 and isinstance(t.left, ast.Attribute) and t.left.attr == "shape" and dotted(t.left.value) == table \
+                    and txt.endswith("(0,)"):
+                nonempty = isinstance(t.ops[0], ast.NotEq)
+            elif isinstance(t, ast.Compare) and len(t.ops) == 1 and isinstance(t.left, ast.Call) and call_name(t.left) == "len" and is_const(t.comparators[0], 0):
+                nonempty = isinstance(t.ops[0], (ast.Gt, ast.NotEq))
+            elif isinstance(t, ast.Attribute) and t.attr == "size" and dotted(t.value) == table:
+                nonempty = True
+            elif isinstance(t, ast.Name):
+                nonempty = True
+            if nonempty is None or nonempty != br:
+                badg.append("%s%s" % ("" if br else "not ", src(t)))
+        ctx.ob("R-ALIGN", "Function.%s::table stored whenever there is a sample" % fn.name, not badg,
+               "the table is stored unless it is empty" if not badg else
+               "the table is stored only if %s: after a solve some condition has no table although constraints were generated" % " and ".join(badg), loc(fn, stores[0]))
     other = [c2 for c2 in ast.walk(fn) if isinstance(c2, ast.Call) and call_name(c2) in ("setdefault", "update") and dotted(c2.func.value) == "self.tables_of_constraints"]
     if other:
         ctx.ob("R-ALIGN", "Function.%s::no conditional store" % fn.name, False, "tables are stored through `%s`: an existing table (of an earlier solve) is kept" % call_name(other[0]), loc(fn, other[0]))
